@@ -202,7 +202,7 @@ class C17(Prop):
             return out
         if init.outcome == "raise":
             out.append(viol("valid-configuration-rejected", init, exc=type(init.exc).__name__,
-                            msg=str(init.exc)[:100], cfg=codec.canon(scn["world"]["retry_kwargs"])[:200]))
+                            msg=engine._exc_text(init.exc)[:100], cfg=codec.canon(scn["world"]["retry_kwargs"])[:200]))
             return out
         rk = scn["world"]["retry_kwargs"]
         delay = rk.get("retry_delay", 0)
